@@ -406,6 +406,7 @@ func init() {
 		MinNontrivial: 5000,
 		Streams: []Stream{
 			{Name: "positions", N: func(c *Ctx) int { return tierN(c, 1500, 100000) }, Run: c11Positions},
+			{Name: "case-mapping", N: casedN, Run: c11CaseMap, Exhaustive: true},
 			{Name: "order", N: func(c *Ctx) int { return tierN(c, 3000, 60000) }, Run: c11Order},
 			{Name: "rename", N: func(c *Ctx) int { return tierN(c, 20000, 4000000) }, Run: c11Rename},
 		},
